@@ -77,6 +77,7 @@ pub fn exec(op: &str, a: &[String]) -> Option<Reply> {
 
 #[derive(Clone, Copy, PartialEq, Debug)]
 enum Ty {
+    Float,
     Int,
     Str,
     Bool,
@@ -111,6 +112,7 @@ impl<'a> Gen<'a> {
                 4 => "9007199254740993".into(),
                 _ => self.rng.range(-20, 20).to_string(),
             },
+            Ty::Float => (*self.rng.pick(&["0.0", "1.5", "-2.25", "1e3", "0.1", "100.0", "-0.0"])).to_string(),
             Ty::Str => format!("\"{}\"", self.rng.pick(&["", "a", "b", "12", "-7", "x y", "é", "abc"])),
             Ty::Bool => if self.rng.chance(1, 2) { "true".into() } else { "false".into() },
             Ty::Arr => match self.rng.below(3) {
@@ -124,7 +126,7 @@ impl<'a> Gen<'a> {
                 _ => format!("{{\"k\": {}, \"a\": {}}}", self.expr(Ty::Int, 1), self.expr(Ty::Bool, 1)),
             },
             Ty::Any => {
-                let t = *self.rng.pick(&[Ty::Int, Ty::Str, Ty::Bool, Ty::Arr, Ty::Obj]);
+                let t = *self.rng.pick(&[Ty::Int, Ty::Str, Ty::Bool, Ty::Arr, Ty::Obj, Ty::Float]);
                 if self.rng.chance(1, 8) { "null".into() } else { self.lit(t) }
             }
         }
@@ -150,6 +152,12 @@ impl<'a> Gen<'a> {
                 3 => format!("({} * {})", self.rng.range(-2, 3), self.any_path()),
                 _ => format!("to_int({})", self.expr(Ty::Any, depth)),
             },
+            Ty::Float => match self.rng.below(4) {
+                0 => format!("float({})", self.any_path()),
+                1 => format!("({} / {})", self.expr(Ty::Int, depth), self.any_path()),
+                2 => format!("({} / {})", self.expr(Ty::Float, depth), self.expr(Ty::Int, depth)),
+                _ => format!("({} * {})", self.any_path(), self.lit(Ty::Float)),
+            },
             Ty::Str => match self.rng.below(3) {
                 0 => format!("string({})", self.any_path()),
                 1 => format!("({} + {})", self.any_path(), self.expr(Ty::Str, depth)),
@@ -169,7 +177,7 @@ impl<'a> Gen<'a> {
                 _ => format!("({} | {})", self.any_path(), self.expr(Ty::Obj, depth)),
             },
             Ty::Any => {
-                let t = *self.rng.pick(&[Ty::Int, Ty::Str, Ty::Bool, Ty::Arr, Ty::Obj]);
+                let t = *self.rng.pick(&[Ty::Int, Ty::Str, Ty::Bool, Ty::Arr, Ty::Obj, Ty::Float]);
                 self.fallible(t, depth)
             }
         }
@@ -262,16 +270,24 @@ impl<'a> Gen<'a> {
                     4 => format!("to_int({})", self.expr(Ty::Bool, d)),
                     _ => self.lit(ty),
                 },
+                Ty::Float => match self.rng.below(5) {
+                    0 => format!("({} + {})", self.expr(Ty::Float, d), self.expr(Ty::Int, d)),
+                    1 => format!("({} * {})", self.expr(Ty::Float, d), self.expr(Ty::Float, d)),
+                    2 => format!("({} - {})", self.expr(Ty::Int, d), self.expr(Ty::Float, d)),
+                    3 => format!("({} / 4)", self.expr(Ty::Int, d)),
+                    _ => self.lit(ty),
+                },
                 Ty::Str => match self.rng.below(3) {
                     0 => format!("({} + {})", self.expr(Ty::Str, d), self.expr(Ty::Str, d)),
                     1 => format!("({} * {})", self.expr(Ty::Str, d), self.rng.range(-1, 3)),
                     _ => self.lit(ty),
                 },
-                Ty::Bool => match self.rng.below(10) {
+                Ty::Bool => match self.rng.below(11) {
                     0 => format!("({} == {})", self.expr(Ty::Any, d), self.expr(Ty::Any, d)),
                     1 => format!("({} != {})", self.expr(Ty::Any, d), self.expr(Ty::Any, d)),
                     2 => format!("({} < {})", self.expr(Ty::Int, d), self.expr(Ty::Int, d)),
                     3 => format!("({} >= {})", self.expr(Ty::Str, d), self.expr(Ty::Str, d)),
+                    9 => format!("({} <= {})", self.expr(Ty::Float, d), self.expr(Ty::Int, d)),
                     4 => format!("({} && {})", self.expr(Ty::Bool, d), self.expr(Ty::Bool, d)),
                     5 => format!("({} || {})", self.expr(Ty::Bool, d), self.expr(Ty::Bool, d)),
                     6 => format!("!{}", self.expr(Ty::Bool, d)),
@@ -296,7 +312,7 @@ impl<'a> Gen<'a> {
                     1 => format!("del({})", self.any_path()),
                     2 => self.assignment(d),
                     _ => {
-                        let t = *self.rng.pick(&[Ty::Int, Ty::Str, Ty::Bool, Ty::Arr, Ty::Obj]);
+                        let t = *self.rng.pick(&[Ty::Int, Ty::Str, Ty::Bool, Ty::Arr, Ty::Obj, Ty::Float]);
                         self.expr(t, d)
                     }
                 },
@@ -356,7 +372,7 @@ impl<'a> Gen<'a> {
     }
 
     fn assignment(&mut self, depth: u32) -> String {
-        let ty = *self.rng.pick(&[Ty::Int, Ty::Str, Ty::Bool, Ty::Arr, Ty::Obj, Ty::Any]);
+        let ty = *self.rng.pick(&[Ty::Int, Ty::Str, Ty::Bool, Ty::Arr, Ty::Obj, Ty::Any, Ty::Float]);
         let (t, is_var) = self.target();
         if self.rng.chance(1, 4) {
             // infallible assignment
@@ -445,10 +461,7 @@ pub fn gen_event(rng: &mut Rng) -> Value {
         6 => Value::Bytes("9999999999999999999".into()),
         _ => Value::Bytes("5".into()),
     };
-    let to_int_ok = |v: Value| match v {
-        Value::Float(_) | Value::Timestamp(_) => Value::Integer(1),
-        other => other,
-    };
+    let to_int_ok = |v: Value| v;
     for k in ["a", "b", "q"] {
         if rng.chance(3, 4) {
             m.insert(k.into(), strip_floats(to_int_ok(scal(rng))));
@@ -476,8 +489,6 @@ pub fn gen_event(rng: &mut Rng) -> Value {
 /// floats and timestamps are outside the current language model: replace them in events.
 pub fn strip_floats(v: Value) -> Value {
     match v {
-        Value::Float(_) => Value::Integer(2),
-        Value::Timestamp(_) => Value::Bytes("ts".into()),
         Value::Array(a) => Value::Array(a.into_iter().map(strip_floats).collect()),
         Value::Object(o) => Value::Object(o.into_iter().map(|(k, v)| (k, strip_floats(v))).collect()),
         other => other,
